@@ -15,7 +15,8 @@ EXPLANATION = ("Static line-shape agreement analysis of btor2::witness (rustc HI
                "Every placeholder and operand is classified by where its value comes from (parameter, iteration variable, conversion call), not by the spelling of the source.")
 ASSUMPTIONS = ["baa to_bit_str / from_bit_str are inverse", "names containing @, # or blanks are not decided", "ordering of array entries is not decided (the reader sorts)"]
 LEVEL_TEXT = ("Static sibling agreement between the two halves of one text format: field count, field order, bracket characters, markers and radix are decided for every line kind, and the reader's frame bookkeeping is checked for "
-              "all stream shapes (any number of witnesses, frames, inputs) rather than the single shape the tests use. Value text is delegated to baa.")
+              "all stream shapes (any number of witnesses, frames, inputs) rather than the single shape the tests use. Value text is delegated to baa."
+              " Reader state that lives across lines and steers what is stored is reset inside the line loop (per-witness state).")
 LEVEL_NOTE = "Agreement of shapes, not a proof of round-trip equality of values; baa's bit-string conversion is trusted."
 TECHNIQUE = "format-string recovery vs. recogniser extraction (token indices, prefix tests); def-use pairing rule; must-call-before-state-change rule"
 
